@@ -12,10 +12,11 @@
      C04_comment_lines            the exact text serialize_comment writes
      C04_final_indent_zero        a run of the serializer ends at the indent level it started with
    PROVED FOR THE FRAGMENT simple_resource (Syntax/RoundTrip.v: stand-alone comments of all three levels;
-   messages and terms without attached comment whose value and attribute values are one-line patterns made of
-   text and placeables with a reference (no call arguments) or a literal; messages with attributes only; see
-   Props/C02.v for the exact definition and what it excludes), both serializer options:
-     C04_roundtrip_simple_partial the round trip: the serializer's text parses back to the SAME tree, no errors
+   messages and terms with or without attached comment whose value and attribute values are one-line patterns
+   made of text and placeables with a reference (no call arguments) or a literal; messages with attributes
+   only; see Props/C02.v for the exact definition and what it excludes), both serializer options:
+     C04_roundtrip_simple_partial the round trip: the serializer's text parses back, without errors, to the tree
+                                  with its whitespace-only comment lines emptied (otherwise the SAME tree)
      C04_fixpoint_simple_partial  serialising the re-parsed tree gives the same text
      C04_simple_output            the text itself (one line per message/term/attribute/comment line, blank lines
                                   around stand-alone comments)
@@ -23,10 +24,10 @@
                                   are not vacuous as statements about "trees the parser can produce")
    STATED ONLY (Definitions, Prop-valued):
      C04_roundtrip_statement, C04_fixpoint_statement      the property over all parser outputs
-   and, as the code stands, both are FALSE: the recorded findings D7 (a lone '#' as last line) and D21
-   (lone CR as only content of a pattern's last line) are counterexamples, proved here:
-     C04_roundtrip_statement_refuted_by_D7, C04_fixpoint_statement_refuted_by_D7,
-     C04_roundtrip_statement_refuted_by_D21
+   and, as the code stands, both are FALSE: the recorded finding D7 (a lone '#' as last line) is a
+   counterexample, proved here (D21, a lone CR as only content of a pattern's last line, was a second one
+   until it was fixed in the repository and in the model):
+     C04_roundtrip_statement_refuted_by_D7, C04_fixpoint_statement_refuted_by_D7
    Examples (vm_compute): C04_example_xxx — round trip and fixed point on concrete inputs.          *)
 From FluentV Require Import Base.Bytes Base.Outcome Base.Utf8 Syntax.Ast.
 From FluentV Require Import Syntax.ParserModel Syntax.SerializerModel Syntax.SerializerProofs Syntax.TreeNorm.
@@ -194,19 +195,6 @@ Proof.
   vm_compute in Hs. discriminate Hs.
 Qed.
 
-(* D21: "k = v\n  \r" parses to a pattern with an EMPTY last text element; the re-parsed tree has the text
-   "v" instead of "v\n". *)
-Theorem C04_roundtrip_statement_refuted_by_D21 : ~ C04_roundtrip_statement.
-Proof.
-  intros H.
-  destruct (H [107; 32; 61; 32; 118; 10; 32; 32; 13]%N
-              [Message [107%N] (Some (Pattern [TextElement [118; 10]%N; TextElement []])) [] None] []
-              eq_refl eq_refl true
-              [107; 32; 61; 10; 32; 32; 32; 32; 118; 10; 32; 32; 32; 32; 10]%N eq_refl)
-    as [t2 [e2 [Hp Hn]]].
-  vm_compute in Hp. injection Hp as <- <-. vm_compute in Hn. discriminate Hn.
-Qed.
-
 (* ---------------------------------------------------------------------------------------------- *)
 (* The property on the fragment simple_resource (see Props/C02.v for what the fragment excludes)     *)
 
@@ -218,18 +206,19 @@ Proof.
     rewrite (IH Hr); reflexivity.
 Qed.
 
-(* C04_roundtrip_statement with the extra premise that the parsed tree lies in the fragment;
-   the re-parsed tree is even EQUAL to the first one and there are no errors *)
+(* C04_roundtrip_statement with the extra premise that the parsed tree lies in the fragment.  The re-parsed
+   tree is even known exactly: it is the first tree with every whitespace-only comment line made empty
+   (SerializerRoundTrip.nz_resource; for a tree without such lines: the same tree), and there are no errors *)
 Theorem C04_roundtrip_simple_partial :
   forall bs t errs, parse bs = Done (t, errs) -> simple_resource t = true ->
   forall with_junk s, serialize_with_options with_junk t = Done s ->
   exists t2 errs2, parse s = Done (t2, errs2) /\ norm t2 = norm (drop_junk_unless with_junk t) /\
-                   t2 = t /\ errs2 = [].
+                   t2 = nz_resource t /\ errs2 = [].
 Proof.
   intros bs t errs _ Ht wj s Hs.
   destruct (parse_serialize_simple wj t Ht) as [s' [Hs' Hp]].
   rewrite Hs' in Hs. injection Hs as <-.
-  exists t, []. rewrite (simple_no_junk t wj Ht). split; [exact Hp | repeat split].
+  exists (nz_resource t), []. rewrite (simple_no_junk t wj Ht), norm_nz_resource. split; [exact Hp | repeat split].
 Qed.
 
 Theorem C04_fixpoint_simple_partial :
@@ -239,15 +228,17 @@ Theorem C04_fixpoint_simple_partial :
 Proof.
   intros bs t errs _ Ht wj s Hs t2 errs2 Hp2.
   destruct (parse_serialize_simple wj t Ht) as [s' [Hs' Hp]].
-  rewrite Hs' in Hs. injection Hs as <-. rewrite Hp in Hp2. injection Hp2 as <- <-. exact Hs'.
+  rewrite Hs' in Hs. injection Hs as <-. rewrite Hp in Hp2. injection Hp2 as <- <-.
+  rewrite (serialize_nz wj t Ht). exact Hs'.
 Qed.
 
 (* the text (SerializerRoundTrip.simple_resource_text): per message  id " = " line, then per attribute a new
    line with four spaces, ".", the attribute id, " = " and its line, then LF (a line: text as it is, a
    placeable as "{ " expression " }"); a term has a leading '-'; a
    message without value has  id " ="  and its attributes; a stand-alone comment is preceded by an empty line
-   unless it is the first entry, has per line the prefix (#, ##, ###), " " and the line (an empty line: the
-   prefix only) and LF, and is followed by an empty line *)
+   unless it is the first entry, has per line the prefix (#, ##, ###), " " and the line (an empty or
+   whitespace-only line: the prefix only) and LF, and is followed by an empty line; an attached comment is
+   written the same way directly in front of its message or term, without empty lines *)
 Theorem C04_simple_output :
   forall with_junk t, simple_resource t = true ->
   serialize_with_options with_junk t = Done (simple_resource_text t).
@@ -257,14 +248,17 @@ Example C04_example_simple_output :
   let t := [ResourceComment (Comment [bytes_of_string "r"; []; bytes_of_string "s"]);
             Message (bytes_of_string "m") (Some (Pattern [TextElement (bytes_of_string "[v] "); PlaceableElement (Inline (VariableReference (bytes_of_string "x")))]))
                     [Attribute (bytes_of_string "a") (Pattern [TextElement (bytes_of_string "w x")])] None;
-            CommentEntry (Comment [bytes_of_string "free"]);
+            CommentEntry (Comment [bytes_of_string "free"; bytes_of_string "  "; bytes_of_string "x"]);
+            Message (bytes_of_string "k") (Some (Pattern [TextElement (bytes_of_string "v")])) []
+                    (Some (Comment [bytes_of_string "attached"]));
             Message (bytes_of_string "n") None [Attribute (bytes_of_string "b") (Pattern [TextElement (bytes_of_string "*")])] None;
             Term (bytes_of_string "t") (Pattern [TextElement (bytes_of_string "y")]) [] None] in
   simple_resource t = true /\
   serialize_with_options true t =
   Done (bytes_of_string "### r" ++ [10%N] ++ bytes_of_string "###" ++ [10%N] ++ bytes_of_string "### s" ++ [10; 10]%N ++
         bytes_of_string "m = [v] { $x }" ++ [10%N] ++ bytes_of_string "    .a = w x" ++ [10; 10]%N ++
-        bytes_of_string "# free" ++ [10; 10]%N ++
+        bytes_of_string "# free" ++ [10%N] ++ bytes_of_string "#" ++ [10%N] ++ bytes_of_string "# x" ++ [10; 10]%N ++
+        bytes_of_string "# attached" ++ [10%N] ++ bytes_of_string "k = v" ++ [10%N] ++
         bytes_of_string "n =" ++ [10%N] ++ bytes_of_string "    .b = *" ++ [10%N] ++
         bytes_of_string "-t = y" ++ [10%N]).
 Proof. split; vm_compute; reflexivity. Qed.
